@@ -27,6 +27,18 @@ RULE = ('race: 1-4 managed threads run scripted Observe / AddCallback / RemoveCa
         'preemption-bounded block schedules, then random scripts and schedules; a final Observe after the drain. The trace '
         'is replayed on the Lean lock-protocol model. non-trivial (race cases) = an Observe and an add / remove / destroy in '
         'different threads, both stepped before the drain')
+LEVEL_TEXT_ADD = (' Concurrency (Props/C17Race.lean): a lock-protocol model of observable_registry.cc with any number of threads calling '
+                  'AddCallback / RemoveCallback / CleanupCallback / Observe, one step per lock / append / erase / loop test + callback '
+                  'begin / callback end / unlock; one inductive invariant over ALL interleavings gives: the vector does not change '
+                  'while an Observe runs, an Observe invokes exactly the registered callbacks (each as often as registered, once when '
+                  'registered once), when RemoveCallback / CleanupCallback returns the registration is gone and no callback is '
+                  'running, and it is never begun again in any continuation that does not push it back. Tied to the code by '
+                  'gen_obsreg_lock_facts and by replaying real schedules of the unmodified file under the deterministic scheduler.')
+LEVEL_NOTE_ADD = (' Race sub-check: trusted = the scheduler shim (sequentially consistent, one runnable thread), '
+                  'props/c17_race.py::abstract, tools/gen_c04race.py. The application is assumed well-formed: one thread adds / '
+                  'removes a given callback, an instrument is destroyed by the only thread using it (a callback that calls '
+                  'Add/RemoveCallback itself would self-deadlock on the non-recursive mutex; not generated). The early `return` of '
+                  'Observe on a null storage is not modelled.')
 
 
 def _case(line, *tags, origin='gen'):
